@@ -1,21 +1,375 @@
 """Sibling / shape agreement rules (engine S) over cachelito-core."""
+from collections import defaultdict
+from .facts import callee_name
+from .effects import classify, Effects
+from .expr import Expr, walk, calls_in, strip_casts, field_path, show
+from .roles import Roles, EST
+from .types import parse, strip_refs
+from . import names as N
+
+ATOMIC = 'core::sync::atomic::Atomic::'
+
+
+def _calls(body, name=None, prefix=None):
+    out = []
+    for b, t in body.calls():
+        cn = callee_name(t)
+        if (name and cn == name) or (prefix and cn.startswith(prefix)):
+            out.append((b, t, cn))
+    return out
 
 
 def check_stats_shapes(run, ctx):
-    pass
+    """C15-S1 counters atomic and unswapped; C15-S2 registry touches one entry"""
+    core = ctx.core
+    S = N.STATS + '::'
+    table = [('record_hit', 'fetch_add', 'hits', 1), ('record_miss', 'fetch_add', 'misses', 1),
+             ('hits', 'load', 'hits', None), ('misses', 'load', 'misses', None)]
+    n = 0
+    for (fn, op, fld, arg) in table:
+        body = ctx.core_fn(S + fn)
+        n += 1
+        if body is None:
+            run.bad('C15-S1', fn + '/fail-closed', 'fail-closed: CacheStats::%s not found' % fn)
+            continue
+        ex = Expr(body)
+        ats = _calls(body, prefix=ATOMIC)
+        ok = False
+        if len(ats) == 1:
+            b, t, cn = ats[0]
+            recv = ex.operand(t['args'][0])
+            root, names = field_path(recv)
+            if cn.endswith('::' + op) and names[-1:] == [fld] and root == ('param', 1):
+                if arg is None:
+                    ok = True
+                else:
+                    a1 = ex.operand(t['args'][1])
+                    ok = a1[0] == 'const' and a1[1] == arg
+        if ok:
+            run.ok('C15-S1', fn, 'one atomic %s on field `%s`' % (op, fld))
+        else:
+            run.bad('C15-S1', fn + '/shape', 'CacheStats::%s must be exactly one atomic %s%s on field `%s`; found %s' % (
+                fn, op, '(1)' if arg else '', fld, [(cn.rsplit('::', 1)[-1], show(ex.operand(t['args'][0]))) for (b, t, cn) in ats]), site=body.name,
+                oracle='atomic read-modify-write on the same-named counter')
+    body = ctx.core_fn(S + 'reset')
+    n += 1
+    if body is None:
+        run.bad('C15-S1', 'reset/fail-closed', 'fail-closed: CacheStats::reset not found')
+    else:
+        ex = Expr(body)
+        ats = _calls(body, prefix=ATOMIC)
+        flds = []
+        for (b, t, cn) in ats:
+            root, names = field_path(ex.operand(t['args'][0]))
+            a1 = ex.operand(t['args'][1]) if len(t['args']) > 1 else None
+            if cn.endswith('::store') and a1 and a1[0] == 'const' and a1[1] == 0:
+                flds.append(names[-1] if names else '?')
+        if sorted(flds) == ['hits', 'misses']:
+            run.ok('C15-S1', 'reset', 'stores 0 to hits and misses')
+        else:
+            run.bad('C15-S1', 'reset/shape', 'CacheStats::reset must store 0 to both counters; found stores to %s' % flds, site=body.name)
+    # registry
+    R = 'cachelito_core::stats_registry::'
+    for fn in ('reset', 'get'):
+        body = ctx.core_fn(R + fn)
+        n += 1
+        if body is None:
+            run.bad('C15-S2', 'registry-%s/fail-closed' % fn, 'fail-closed: stats_registry::%s not found' % fn)
+            continue
+        ex = Expr(body)
+        gets = _calls(body, name=N.HM + 'get')
+        iters = [c for c in body.calls() if callee_name(c[1]) in (N.HM + 'values', N.HM + 'iter', N.HM + 'values_mut', N.HM + 'iter_mut', N.HM + 'keys')]
+        by_name = False
+        for (b, t, cn) in gets:
+            k = ex.operand(t['args'][1])
+            if k == ('param', 1):
+                by_name = True
+        if fn == 'reset':
+            rs = _calls(body, name=N.STATS + '::reset')
+            ok = len(rs) == 1 and by_name and not iters
+            if ok:
+                recv = ex.operand(rs[0][1]['args'][0])
+                ok = any(c[1] == N.HM + 'get' for c in calls_in(recv))
+            if ok:
+                run.ok('C15-S2', 'registry-reset', 'resets only the entry looked up by name')
+            else:
+                run.bad('C15-S2', 'registry-reset/shape', 'stats_registry::reset(name) must reset exactly the entry looked up under `name` (found %d reset call(s), lookup by name: %s, iteration over all: %s)'
+                        % (len(rs), by_name, bool(iters)), site=body.name, oracle='resetting one cache leaves all others unchanged')
+        else:
+            if by_name and not iters:
+                run.ok('C15-S2', 'registry-get', 'returns the entry looked up by name')
+            else:
+                run.bad('C15-S2', 'registry-get/shape', 'stats_registry::get(name) must look the entry up under `name`', site=body.name)
+    reg = ctx.core_fn(R + 'register')
+    n += 1
+    if reg is None:
+        run.bad('C15-S2', 'registry-register/fail-closed', 'fail-closed: stats_registry::register not found')
+    else:
+        ex = Expr(reg)
+        ins = _calls(reg, name=N.HM + 'insert')
+        ok = False
+        if len(ins) == 1:
+            k = ex.operand(ins[0][1]['args'][1])
+            v = ex.operand(ins[0][1]['args'][2])
+            kk = k[2][0] if (k[0] == 'call' and k[2]) else k
+            ok = kk == ('param', 1) and v == ('param', 2)
+        if ok:
+            run.ok('C15-S2', 'registry-register', 'stores the given stats under the given name')
+        else:
+            run.bad('C15-S2', 'registry-register/shape', 'stats_registry::register(name, stats) must insert (name -> stats)', site=reg.name)
+    return n
 
 
+# ------------------------------------------------------------------------------------------------
 def check_orientation(run, ctx):
-    pass
+    """C07-S1: one orientation for storing, touching and FIFO/LRU victims, in every flavour and path"""
+    from . import rules_core as K
+    C = K.Core(ctx)
+    rows = {}
+    # store end and touch end
+    srows, _ = K.store_rows(ctx)
+    for r in srows:
+        a = r['fields']
+        if a['policy'] not in (0, 1) or a['limit'] or a['max_memory'] or a['ttl']:
+            continue
+        ends = set()
+        for v in r['outcomes']:
+            d = K._vec(v)
+            if d['Q>']:
+                ends.add('back')
+            if d['Q<']:
+                ends.add('front')
+        rows[(r['flavour'], r['method'], 'store')] = ends
+    lrows, _ = K.lookup_scenarios(ctx)
+    for r in lrows:
+        a = r['fields']
+        if a['policy'] == 1 and a['limit'] == 1 and a['max_memory'] == 0 and a['ttl'] == 0 and r['scenario'] == 'fresh':
+            ends = set()
+            for (ret, v) in r['outcomes']:
+                d = K._vec(v)
+                if d['Q>']:
+                    ends.add('back')
+                if d['Q<']:
+                    ends.add('front')
+            rows[(r['flavour'], 'get', 'touch')] = ends
+    erows, _ = K.eviction_rows(ctx)
+    for r in erows:
+        if r['policy'] in (0, 1) and r['member'] == 1:
+            ends = set()
+            for v in r['outcomes']:
+                d = K._vec(v)
+                if d['Q-front']:
+                    ends.add('front')
+                if d['Q-back']:
+                    ends.add('back')
+            rows[(r['flavour'], 'limit-eviction/%s' % N.POLICY_VARIANTS[r['policy']], 'victim')] = ends
+    # memory loop victims
+    for flav, adt in K.FLAVOURS:
+        fn = C.method(adt, 'insert_with_memory')
+        if fn is None:
+            continue
+        fit = [(xid, bi) + x for (xid, bi), lst in C.cmp_sites(fn).items() for x in lst if x[0] == 'cmp:fit']
+        if len(fit) != 1:
+            continue
+        (xid, bi, kind, si, op, ra, rb) = fit[0]
+        body = ctx.prog.bodies[xid]
+        from .roles import normal_form, SYM
+        sumrole = ra if ra != 'MAX_MEM' else rb
+        left, sym, right = normal_form(op, ra, rb, [sumrole, 'MAX_MEM'])
+        raw_false = 0 if (SYM[op] in ('<=', '<')) == (ra == left) else 1
+        member = [(x.id, b) for x in C.scope(fn) for b, t in x.calls() if classify(t) == 'S?']
+        selected = [(x.id, b) for x in C.scope(fn) for b, t in x.calls() if classify(t) in ('Q-front', 'Q-at', 'Q-back')]
+        for p in (0, 1):
+            orc = {(xid, bi, si): raw_false}
+            for s_ in member + selected:
+                orc[s_] = 1
+            w = C.weigher({'policy': p, 'limit': 0, 'max_memory': 1, 'ttl': 0}, orc, root=fn)
+            sp = w.spec(body)
+            from .spec import segment_totals
+            ends = set()
+            for (how, blk), vs in segment_totals(sp, {bi}, {bi}).items():
+                for v in vs:
+                    d = K._vec(v)
+                    if d['Q-front']:
+                        ends.add('front')
+                    if d['Q-back']:
+                        ends.add('back')
+            rows[(flav, 'memory-eviction/%s' % N.POLICY_VARIANTS[p], 'victim')] = ends
+    n = 0
+    store_end = set()
+    for k, ends in sorted(rows.items()):
+        n += 1
+        if len(ends) != 1:
+            run.bad('C07-S1', '%s/%s/%s/ambiguous' % k, 'the %s end of the order queue in %s/%s is %s' % (k[2], k[0], k[1], sorted(ends) or 'never touched'),
+                    site='%s %s' % (k[0], k[1]), oracle='one orientation')
+            continue
+        e = next(iter(ends))
+        if k[2] in ('store', 'touch'):
+            store_end.add(e)
+    if len(store_end) == 1:
+        se = next(iter(store_end))
+        for k, ends in sorted(rows.items()):
+            if len(ends) != 1:
+                continue
+            e = next(iter(ends))
+            if k[2] in ('store', 'touch') and e != se:
+                run.bad('C07-S1', '%s/%s/%s/end' % k, '%s/%s puts keys at the %s of the queue while the other paths use the %s' % (k[0], k[1], e, se), site='%s %s' % (k[0], k[1]))
+            elif k[2] == 'victim' and e == se:
+                run.bad('C07-S1', '%s/%s/victim-end' % (k[0], k[1]), 'the FIFO/LRU victim in %s/%s is taken from the %s of the queue, the end where new and recently used keys are put: '
+                        'the newest entry is evicted instead of the oldest' % (k[0], k[1], e), site='%s %s' % (k[0], k[1]), oracle='store end = touch end != victim end')
+            else:
+                run.ok('C07-S1', '%s/%s/%s' % k, '%s end = %s' % (k[2], e))
+    elif store_end:
+        run.bad('C07-S1', 'store-touch-disagree', 'new keys and touched keys are put at different ends of the queue in different paths: %s' % {k: sorted(v) for k, v in rows.items() if k[2] != 'victim'},
+                oracle='all rows agree')
+    run.require('C07-S1', 'orientation rows', n, 20)
+    return n
 
 
+# ------------------------------------------------------------------------------------------------
 def check_random_victim(run, ctx):
-    pass
+    """C04-K2: the random victim index is drawn from ..len(queue) and removed from that same queue"""
+    core = ctx.core
+    roles = Roles(ctx.prog)
+    n = 0
+    for body in core.bodies.values():
+        rnd = _calls(body, prefix='fastrand::')
+        if not rnd:
+            continue
+        ex = Expr(body)
+        for (b, t, cn) in rnd:
+            n += 1
+            key = '%s/bb-random' % body.name
+            arg = ex.operand(t['args'][0]) if t['args'] else None
+            okr = arg is not None and arg[0] == 'agg' and arg[1].endswith('RangeTo::RangeTo') and roles.role(body, arg[2][0]) == 'LEN_QUEUE' and cn.endswith('::usize')
+            # the drawn value is the position passed to VecDeque::remove on the same queue
+            used = False
+            same_q = False
+            for (b2, t2, cn2) in _calls(body, name=N.VD + 'remove'):
+                pos = ex.operand(t2['args'][1])
+                if pos[0] == 'call' and pos[3] == b:
+                    used = True
+                    q1 = ex.operand(t2['args'][0])
+                    lens = [c for c in calls_in(arg) if c[1] == N.VD + 'len'] if arg else []
+                    same_q = bool(lens) and lens[0][2][0] == q1
+            if okr and used and same_q:
+                run.ok('C04-K2', key, 'fastrand::usize(..queue.len()) indexes the queue it is removed from')
+            else:
+                run.bad('C04-K2', body.name + '/random-victim', 'the random victim in %s is not a position of the order queue it is removed from (range over queue length: %s, '
+                        'used as removal index: %s, same queue: %s)' % (body.name, okr, used, same_q), site='%s (%s)' % (body.name, body.loc(b)),
+                        oracle='pos = fastrand::usize(..order.len()); order.remove(pos)')
+    run.require('C04-K2', 'random victim draws', n, 6)
+    return n
+
+
+# ------------------------------------------------------------------------------------------------
+POSITION = 'core::iter::traits::iterator::Iterator::position'
 
 
 def check_queue_dedupe(run, ctx):
-    pass
+    """C04-P3: a key is pushed to the queue only after any older occurrence has been removed"""
+    from . import rules_core as K
+    C = K.Core(ctx)
+    eff = Effects(ctx.prog)
+    n = 0
+    fns = []
+    for flav, adt in K.FLAVOURS:
+        for m in ('insert', 'insert_with_memory', 'get', 'move_to_end', 'is_already_key_inserted'):
+            f = C.method(adt, m)
+            if f is not None:
+                fns.append((flav, f))
+    mk = ctx.core_fn('cachelito_core::utils::move_key_to_end')
+    if mk is not None:
+        fns.append(('sync', mk))
+    for flav, fn in fns:
+        for body in C.scope(fn):
+            pushes = [(b, t) for (b, k, t) in eff.prim(body) if k in ('Q>', 'Q<')]
+            if not pushes:
+                continue
+            sites = eff.sites(body)
+            for (pb, pt) in pushes:
+                n += 1
+                key = '%s/%s' % (flav, body.name)
+                ok = False
+                why = ''
+                for (b, k, ch) in sites:
+                    if k == 'Q-key' and b != pb and body.dominates(b, pb):
+                        ok = True
+                        why = 'retain(!= key) dominates the push'
+                    if k == 'Q-at' and b != pb:
+                        # removal at a position found by position(== key): the search must dominate the push
+                        for (b2, t2, cn2) in _calls(body, name=POSITION):
+                            if body.dominates(b2, pb) and b in body.reachable(b2) and pb in body.reachable(b):
+                                ok = True
+                                why = 'position(== key) search dominates the push and its hit is removed first'
+                if ok:
+                    run.ok('C04-P3', key + '/bb%d' % pb, why)
+                else:
+                    run.bad('C04-P3', key + '/duplicate-queue-key', '%s appends the key to the order queue without first removing an older occurrence: a re-stored or touched key '
+                            'is then queued twice and the queue length no longer bounds the store' % body.name, site='%s (%s)' % (body.name, body.loc(pb)),
+                            oracle='every push of key k is preceded by the removal of k from the queue')
+    run.require('C04-P3', 'queue pushes', n, 8)
+    return n
 
 
+# ------------------------------------------------------------------------------------------------
 def check_estimators(run, ctx):
-    pass
+    """C05-S1: estimator impls count capacity (not length) and recurse into every component"""
+    core = ctx.core
+    n = 0
+    SIZE_OF = 'core::mem::size_of'
+    SIZE_OF_VAL = 'core::mem::size_of_val'
+    want = {
+        'alloc::string::String': {'capacity': ['alloc::string::String::capacity'], 'rec': 0, 'forbid': ['alloc::string::String::len']},
+        'alloc::vec::Vec<T>': {'capacity': ['alloc::vec::Vec::capacity'], 'rec': 1, 'forbid': []},
+        'core::option::Option<T>': {'rec': 1}, 'core::result::Result<T, E>': {'rec': 2},
+        '(T1, T2)': {'rec': 2}, '(T1, T2, T3)': {'rec': 3}, 'alloc::boxed::Box<T>': {'rec': 1},
+        'alloc::sync::Arc<T>': {'rec': 1}, 'alloc::rc::Rc<T>': {'rec': 1}, '&[T]': {'rec': 1},
+        '&str': {'capacity': ['core::str::<impl str>::len'], 'rec': 0},
+        'cachelito_core::cache_entry::CacheEntry<R>': {'rec': 1},
+    }
+    seen = set()
+    for body in core.bodies.values():
+        if body.js.get('impl_trait') != 'cachelito_core::memory_estimator::MemoryEstimator' or body.kind != 'assoc_fn':
+            continue
+        st = body.impl_self
+        spec = want.get(st)
+        scope = [body] + core.descendants(body)
+        calls = [callee_name(t) for x in scope for b, t in x.calls()]
+        n += 1
+        if spec is None:
+            run.note('unreviewed MemoryEstimator impl for %s' % st)
+            run.ok('C05-S1', st + '/unreviewed', 'impl not in the reviewed table (informational)', trivial=True)
+            continue
+        seen.add(st)
+        rec = calls.count(EST)
+        problems = []
+        if rec < spec.get('rec', 0):
+            problems.append('recurses into %d component(s), needs %d' % (rec, spec['rec']))
+        for c in spec.get('capacity', []):
+            if c not in calls:
+                problems.append('does not use %s' % c.rsplit('::', 1)[-1] + '()')
+        for c in spec.get('forbid', []):
+            if c in calls:
+                problems.append('uses %s() (length, not capacity)' % c.rsplit('::', 1)[-1])
+        if SIZE_OF not in calls:
+            problems.append('does not add size_of::<Self>()')
+        if spec.get('rec', 0) >= 2 and st.startswith('('):
+            # each tuple field must be estimated: distinct field indices among the receivers
+            idxs = set()
+            for x in scope:
+                ex = Expr(x)
+                for b, t in x.calls():
+                    if callee_name(t) == EST:
+                        root, names = field_path(ex.operand(t['args'][0]))
+                        if names:
+                            idxs.add(names[-1])
+            if len(idxs) < spec['rec']:
+                problems.append('estimates fields %s only' % sorted(idxs))
+        if problems:
+            run.bad('C05-S1', st + '/estimator', 'MemoryEstimator for %s %s' % (st, '; '.join(problems)), site=body.name,
+                    oracle='size = inline size + owned heap capacity, recursively over every component')
+        else:
+            run.ok('C05-S1', st, 'size_of::<Self>() + %s' % ('capacity' if 'capacity' in spec else '%d recursive estimate(s)' % rec))
+    run.require('C05-S1', 'reviewed estimator impls', len(seen), 11)
+    return n
